@@ -448,10 +448,11 @@ impl StrExt for str {
         // - The glob `???*` is equivalent to the regex `.{3,}`
         let question_marks = self.matches('?').count();
 
+        // The `s` flag makes `.` match any character, including `\n`.
         if self.contains('*') {
-            format!(".{{{question_marks},}}")
+            format!("(?s:.){{{question_marks},}}")
         } else {
-            format!(".{{{question_marks}}}")
+            format!("(?s:.){{{question_marks}}}")
         }
     }
 }
